@@ -20,8 +20,11 @@ vars == <<st, ram, gs, lo, hi>>
 
 Clean(s) == [s EXCEPT !.wlog = <<>>]
 RECURSIVE SetupStore(_, _)
-SetupStore(s, i) ==
-  IF i > Len(Setup) THEN s ELSE SetupStore(PageStep(s, EmptyRam, DefRule, Setup[i].l, Setup[i].cr).st, i + 1)
+SetupStore(s, i) ==     \* a setup entry is a page [l, cr] or a crawled page with its links [l, cr, tgts]
+  IF i > Len(Setup) THEN s
+  ELSE IF "tgts" \in DOMAIN Setup[i]
+       THEN SetupStore(IndexBatchCrawlReq(s, EmptyRam, DefRule, <<[src |-> Setup[i].l, tgts |-> Setup[i].tgts]>>).st, i + 1)
+       ELSE SetupStore(PageStep(s, EmptyRam, DefRule, Setup[i].l, Setup[i].cr).st, i + 1)
 Store0 == Clean(SetupStore(EmptyStore, 1))
 
 (* the answer a finished (or drained) generator holds, as a set of items *)
@@ -70,6 +73,8 @@ NoFail == \A i \in 1..Len(gs) : gs[i].exc = ""
 NetBounds ==
   \A q \in Queries : gs[q].done =>
     LET res == Result(gs[q]) IN lo[q] \subseteq res /\ res \subseteq hi[q]
+NoExcess  == \A q \in Queries : gs[q].done => Result(gs[q]) \subseteq hi[q]     \* the side F11 violates
+NoMissing == \A q \in Queries : gs[q].done => lo[q] \subseteq Result(gs[q])     \* the side F12 violates
 (* a query that ran alone computes the declarative answer, ranks and weights included *)
 AloneExact ==
   \A q \in Queries : (gs[q].done /\ \A i \in 1..Len(gs) : i # q => gs[i] = Gens[i]) =>
